@@ -204,7 +204,7 @@ func rawFrame(n *kit.Node, src, dst netip.Addr, mt frame.MessageType, sw []byte,
 func TestC10(t *testing.T) {
 	env := kit.GetEnv()
 	rep := kit.NewReport("C10", env)
-	rep.Rule = "(a) converged meshes (all connected graphs on 2-4 routers, lines/rings/stars/trees/grids up to 8 quick / 16 thorough routers, 1- and 2-byte labels): for every ordered pair (A,B) a routed ping-pong from A to B followed to quiescence; (a2) network traffic between every pair of tun-equipped routers across relays with and without a tun interface; (b) adversarial forwarding state on complete graphs of 2-4 routers: every assignment of 'next hop towards D' per router (includes every cycle and dead end), x initial TTL {0,1,2,3,32,255} x message class {signed, encrypted} x entry router/link, for routed frames; label-switched frames with switch blocks over {valid path, cyclic, too short for the return label, zero-first, dangling label, non-terminated} x label maps; every link crossing of the injected frame is checked (TTL strictly decreasing, crossings <= TTL0-1, bytes preserved outside TTL/flow/switch block); non-trivial = frame crossed at least one link or had to be refused; distinct = distinct (world, injected frame)"
+	rep.Rule = "(a) converged meshes (all connected graphs on 2-4 routers, lines/rings/stars/trees/grids up to 8 quick / 16 thorough routers, 1- and 2-byte labels): for every ordered pair (A,B) a routed ping-pong from A to B followed to quiescence; (a2) network traffic between every pair of tun-equipped routers across relays with and without a tun interface; (b) adversarial forwarding state on complete graphs of 2-4 (thorough 5) routers: every assignment of 'next hop towards D' per router (includes every cycle and dead end), x initial TTL {0,1,2,3,32,255} x message class {signed, encrypted} x entry router/link, for routed frames; label-switched frames with switch blocks over {valid path, cyclic, too short for the return label, zero-first, dangling label, non-terminated} x label maps; every link crossing of the injected frame is checked (TTL strictly decreasing, crossings <= TTL0-1, bytes preserved outside TTL/flow/switch block); non-trivial = frame crossed at least one link or had to be refused; distinct = distinct (world, injected frame)"
 	rep.Assumptions = []string{
 		"transit frames are relayed without authentication (by design), so injected frames need no valid seal",
 		"deliveries are sequential (one handler invocation at a time), FIFO in (a); a single unicast frame has one frame in flight at a time, so its delivery order is unique",
@@ -346,7 +346,11 @@ func TestC10(t *testing.T) {
 	}
 
 	// ---------------- (b) adversarial forwarding state.
-	for n := 2; n <= 4; n++ {
+	maxN := 4
+	if env.Thorough() {
+		maxN = 5
+	}
+	for n := 2; n <= maxN; n++ {
 		// every assignment of next hop per router: neighbour index in [0, n-1) or "no route" (n-1).
 		opts := n // n-1 neighbours + none
 		total := 1
